@@ -300,11 +300,16 @@ def summarise(t):
     def sub(x):
         # summarise a branch with the current environment visible
         saved_events = list(events)
+        saved_counter = counter[0]
+        saved_env = dict(env)
         del events[:]
         r = run(x)
         evs = list(events)
         del events[:]
         events.extend(saved_events)
+        counter[0] = saved_counter
+        env.clear()
+        env.update(saved_env)
         return (evs, r)
 
     def run(x):
